@@ -21,7 +21,7 @@ func genDlarft(g *vlib.G) {
 			for _, direct := range []lapack.Direct{lapack.Forward, lapack.Backward} {
 				for _, store := range []lapack.StoreV{lapack.ColumnWise, lapack.RowWise} {
 					n, k, direct, store := n, k, direct, store
-					g.Case(fmt.Sprintf("Dlarft n=%d k=%d direct=%c store=%c", n, k, direct, store), func(t *vlib.T) {
+					kase(g, fmt.Sprintf("Dlarft n=%d k=%d direct=%c store=%c", n, k, direct, store), func(t *vlib.T) {
 						// zero-count pattern of every vector: 0..2 zeros at the far end, and tau == 0 or not
 						radices := make([]int, 2*k)
 						for i := 0; i < k; i++ {
